@@ -146,6 +146,9 @@ func c10Whitespace(c *Case) {
 	ctx := pickCtx(g, d)
 	env := &xgen.Env{Doc: d, Ctx: ctx, Names: namesIn(d)}
 	e := anyExpr(g, env)
+	if c.expensive(e, d) {
+		return
+	}
 	toks := xref.Tokens(e)
 	std := xref.Join(toks, "std", nil)
 	base, err := parseTree(std)
@@ -205,6 +208,9 @@ func c10Abbrev(c *Case) {
 		e = g.PosPath(env, 3)
 	default:
 		e = anyExpr(g, env)
+	}
+	if c.expensive(e, d) {
+		return
 	}
 	n := xgen.CountAbbrev(e)
 	if n == 0 {
